@@ -30,14 +30,14 @@ CHECKS = {
   engine="runner",
   technique="runtime monitoring with an executable oracle: generated Python programs are executed by CPython under a tracing shim (per executed assignment: value / allocation line / member maps) and lian's abstract value of the same definition is read from the persisted P3 tables; wrappers on compute_two_states / strict_eval and exec audit events decide 'literal text is only data'; metamorphic literal replacement",
   category="exploration",
-  text="G-values programs (int/str constants incl. strings with quotes, backslashes, operator characters and digit-only content; constant arithmetic, concatenation, repetition; allocation, field/element reads and writes, aliasing by copy and by parameter, helper calls and returns, branches on an opaque decision vector, loops run 0 or 1 times). Per executed definition: lian's value set contains the constant by value, or an object state of the same allocation site whose member maps cover recursively, or an explicit unknown state; the share of constant definitions covered by value must stay above a floor (non-vacuity). Literal-as-data: every text handed to an evaluator is compared with the operand data; replacing a hostile literal by a benign one of equal length must leave unaffected definitions, the sequence of analysed frames and the per-statement visit counts unchanged; folds predicted above 10^6 bits must not be entered. Quick ~200 programs (~6k definitions, ~2.3k folds, ~190 metamorphic pairs), thorough ~3000 programs (~100k definitions).",
-  note="Trusted: CPython, the tracing shim, the (file, line) -> GIR statement join and the reader of s2space_p3/stmt_status_p3 (validated against the live objects: persisted rows equal the last live save). Python frontend only. Loops are run at most once (quantifier). Failures inside loops are attributed to the bounded-visits mechanism only when the same definition is covered once the worklist scheduling of proposed/C08-worklist-order.diff is patched in at run time; open known findings: cover:bounded-visits-in-loops, cover:member-of-member:parameter, cover:member-of-member:field-write-through-parameter.",
+  text="G-values programs (int/str constants incl. strings with quotes, backslashes, operator characters and digit-only content; constant arithmetic, concatenation, repetition; allocation, field/element reads and writes, aliasing by copy and by parameter, helper calls and returns, branches on an opaque decision vector, loops run 0 or 1 times). Per executed definition: lian's value set contains the constant by value, or an object state of the same allocation site whose member maps cover recursively, or an explicit unknown state; the share of constant definitions covered by value must stay above a floor (non-vacuity). Literal-as-data: every text handed to an evaluator is compared with the operand data; replacing a hostile literal by a benign one of equal length must leave unaffected definitions, the sequence of analysed frames and the per-statement visit counts unchanged; folds predicted above 10^6 bits must not be entered. Plus two scripted families in about 60 % of programs: an object stored into a container by a callee and modified afterwards (own variable, alias, two levels, parameter out-effect), and helpers with two exits writing a parameter object's field through an alias or a nested setter under a decision; residual failures of shape 'callee object in a loop body modified later' are attributed structurally. Quick ~200 programs (~6k definitions, ~2.3k folds, ~190 metamorphic pairs), thorough ~3000 programs (~100k definitions).",
+  note="Trusted: CPython, the tracing shim, the (file, line) -> GIR statement join and the reader of s2space_p3/stmt_status_p3 (validated against the live objects: persisted rows equal the last live save). Python frontend only. Loops are run at most once (quantifier). First definitions are judged on the assignment statement only (not the hoisted variable_decl row). Failures inside loops are attributed to the bounded-visits mechanism only when the same definition is covered once the worklist scheduling of proposed/C08-worklist-order.diff is patched in at run time; open known findings: cover:bounded-visits-in-loops, cover:member-of-member:parameter, cover:member-of-member:field-write-through-parameter, cover:callee-object-in-loop-body-modified-later.",
   design="DESIGN.md §C08"),
  "C09": dict(
   engine="runner",
   technique="runtime monitoring with an exact oracle: every decision vector of generated loop-free Python programs is executed by CPython, the set of concrete values at each probe point is collected and compared for EQUALITY with lian's abstract value set of the probed argument read from the persisted P3 tables",
   category="exploration",
-  text="Loop-free G-values programs (int constants, one allocation per variable, aliasing by assignment, distinct field names, branches on d[i] with <= 6 decisions so that all 2^k vectors are feasible, helper functions called from several sites with different arguments, default / keyword arguments, constant binary operations). At every probe (a call of an unresolved function with the probed value) lian's set must equal the exact set over all vectors reaching the probe: an overwritten value retained, a value of another field / object / call site, a missing value or an unknown state is a difference. Features counted separately (overwrite, branch-join, field-vs-field, object-vs-object, call-site, nested call, callee field read/write, binary fold, ...). Quick 150 programs (~1.8k probes), thorough ~4000 programs (~47k probes).",
+  text="Loop-free G-values programs (int constants, one allocation per variable, aliasing by assignment, distinct field names, branches on d[i] with <= 6 decisions so that all 2^k vectors are feasible, helper functions called from several sites with different arguments, default / keyword arguments, constant binary operations). At every probe (a call of an unresolved function with the probed value) lian's set must equal the exact set over all vectors reaching the probe: an overwritten value retained, a value of another field / object / call site, a missing value or an unknown state is a difference. Features counted separately (overwrite, branch-join, field-vs-field, object-vs-object, call-site, nested call, callee field read/write, binary fold, ...). Plus the same two scripted families as C08 (nested object modified after being stored in a callee; helpers with several exits writing a parameter object's field) with probes; floors >= 80 / 2500 exact probes per family. Quick 150 programs (~2.4k probes), thorough ~4000 programs (~47k probes).",
   note="Trusted: CPython, the probe shim, the reader of the P3 tables. Python frontend only. Derived probes of an already reported variable are not reported again. Open known finding: via-callee-field-write:extra (a field overwritten inside a callee keeps its previous value in the caller).",
   design="DESIGN.md §C09"),
  "C05": dict(
